@@ -16,11 +16,11 @@ def table(path, cols):
 
 res = table(f'{V}/RESULTS.md', 6)
 first = {}
-for f in ('ROUND3_FIRST_PASS.md', 'ROUND4_FIRST_PASS.md', 'ROUND5_FIRST_PASS.md', 'ROUND6_FIRST_PASS.md', 'ROUND7_FIRST_PASS.md'):
+for f in ('ROUND3_FIRST_PASS.md', 'ROUND4_FIRST_PASS.md', 'ROUND5_FIRST_PASS.md', 'ROUND6_FIRST_PASS.md', 'ROUND7_FIRST_PASS.md', 'ROUND8_FIRST_PASS.md'):
     for k, c in table(f'{V}/{f}', 3).items():
         first[k] = 'SURVIVED' if 'SURVIVED' in c else 'killed'
 NOT_INDEPENDENT = {'C10_5', 'C10_6'}
-ALSO = {'C03_8': ['C04'], 'C04_9': ['C03']}
+ALSO = {'C03_8': ['C04'], 'C04_9': ['C03'], 'C04_14': ['C03']}
 OUTSIDE = {'C07_9': "C07 states nothing about the soft-max backward (only forward: non-negative, sums to one, shift-invariant, finite); the unchanged Softmax::backward is not a derivative either (it returns the constant (n-2) * sum p^2 in every component) and Dense does not call it. The change is kept for the record; no check is expected to detect it."}
 for d in sorted(os.listdir(V)):
     mp = f'{V}/{d}/meta.json'
@@ -40,7 +40,7 @@ for d in sorted(os.listdir(V)):
         }
     if d in first:
         m['history'] = ('detected by the owning check as it stood when the change arrived' if first[d] == 'killed'
-                        else 'missed by the checks as they stood when the change arrived; detected after the generator / oracle widening described in DESIGN.md (appendix %s)' % {'5': 'C', '6': 'C', '7': 'D', '8': 'D', '9': 'E', '10': 'E', '11': 'F', '12': 'F'}.get(d.split('_')[1], 'G'))
+                        else 'missed by the checks as they stood when the change arrived; detected after the generator / oracle widening described in DESIGN.md (appendix %s)' % {'5': 'C', '6': 'C', '7': 'D', '8': 'D', '9': 'E', '10': 'E', '11': 'F', '12': 'F', '13': 'G', '14': 'G'}.get(d.split('_')[1], 'H'))
     if d in NOT_INDEPENDENT:
         m['independence'] = 'the sub-agent that wrote this change reported having read /verif/harness/src/c10.rs: NOT independent of the check'
     json.dump(m, open(mp, 'w'), indent=1)
